@@ -61,16 +61,39 @@ class Report:
             self.analysed_fns.add(f if isinstance(f, str) else f.id)
 
 
+_BORROW_CACHE = {}
+
+
 def borrow(ctx, prop, select):
     """Run the rules of another property on the same facts and return those of its instances for which
     select(rule_id, instance_key) holds: [(rule_id, instance dict)].  Used where a property rests on a clause that
     another property's rules already decide (e.g. balanced logging presupposes that processing cannot abort)."""
-    sub = Ctx(prop.upper(), ctx.tier)
-    sub._facts = ctx._facts
-    sub.info = ctx.info
-    sub.default_config = ctx.default_config
-    mod = importlib.import_module('rules.' + prop.lower())
-    mod.run(sub)
+    # one evaluation of a lender per process and configuration; a lender that is itself waiting for this borrower (A borrows
+    # from B, B from A) contributes nothing the second time round - each property still evaluates all of its own rules
+    key = (prop.upper(), ctx.tier, ctx.default_config, id(ctx._facts))
+    chain = getattr(ctx, '_borrow_chain', ()) + (ctx.prop,)
+    if prop.upper() in chain:
+        return []
+    if key in _BORROW_CACHE:
+        sub = _BORROW_CACHE[key]
+        if isinstance(sub, Exception):
+            raise sub
+    else:
+        sub = Ctx(prop.upper(), ctx.tier)
+        sub._facts = ctx._facts
+        sub.info = ctx.info
+        sub.default_config = ctx.default_config
+        sub._borrow_chain = chain
+        mod = importlib.import_module('rules.' + prop.lower())
+        try:
+            mod.run(sub)
+        except Exception as e:
+            if not chain[1:]:
+                _BORROW_CACHE[key] = e
+            raise
+        if not chain[1:]:
+            # (a lender evaluated inside a chain may have skipped a cyclic borrow: only top-level evaluations are reused)
+            _BORROW_CACHE[key] = sub
     out = []
     for rid in sub.rep.order:
         for inst in sub.rep.rules[rid]['instances']:
